@@ -266,7 +266,14 @@ def gen_rx(rng, seedstr=None):
     if rng.random() < 0.1: p.insert(0, "star")
     return p
 
+_STATE_HINT = []   # (key, value) pairs set by the preceding items of the pipeline being generated
+
 def gen_state_cond(rng):
+    if _STATE_HINT and rng.random() < 0.7:
+        k, v = rng.choice(_STATE_HINT)
+        if isinstance(v, int) and rng.random() < 0.5: v = v + rng.choice([-1, 0, 0, 1])
+        elif isinstance(v, str) and rng.random() < 0.3: v = rng.choice([v + "a", v[:-1], v.upper()])
+        return {"t": "processing_state", "key": k, "val": v, "op": rng.choice(list(CMP))}
     return {"t": "processing_state", "key": rng.choice(STATE_KEYS + ["k9"]), "val": rng.choice(STATE_VALS),
             "op": rng.choice(list(CMP) + ["eq", "eq", "ne"])}
 
@@ -400,9 +407,13 @@ def gen_random_case(rng):
     names = rule_field_names(r) or ["a"]
     n = rng.choice([1, 2, 2, 3, 3, 4, 5])
     items = []
+    del _STATE_HINT[:]
     for k in range(n):
         ident = rng.choice(IDS) if rng.random() < 0.25 else IDS[k % 4] if k < 4 else "i5"
         items.append(gen_item(rng, r, names, ident, marker=(k == n - 1), cond_p=0.35 if k < n - 1 else 0.9))
+        if items[-1]["tr"]["type"] == "set_state":
+            _STATE_HINT.append((items[-1]["tr"]["key"], items[-1]["tr"]["val"]))
+    del _STATE_HINT[:]
     return {"rule": r, "items": items}
 
 # ---- the systematic sweep of the gating decisions -----------------------------------------
@@ -447,6 +458,32 @@ def sweep():
                             out.append({"rule": SWEEP_RULE, "items": [it]})
     return out
 
+BOUND_RULE = dict(SWEEP_RULE, level="high", status="test", date="2020-02-29", author="me", custom=[["mycustom", 5], ["other", "7"]],
+                  tags=["attack.t1059", "a.b.c"])
+
+def boundary_cases():
+    """comparison operators at, just below and just above the compared value"""
+    out = []
+    def marker_item(kind, cond):
+        it = {"id": "m", "tr": MARKER[kind], "rule": dict(EMPTY), "det": dict(EMPTY), "field": dict(EMPTY)}
+        it[kind] = {"form": "list", "conds": [["", cond]], "link": None, "expr": None, "neg": False}
+        return it
+    for sv, vals in ((5, [4, 5, 6, "5"]), ("b", ["a", "b", "c", "B", "ba", ""])):
+        setter = {"id": "s", "tr": {"type": "set_state", "key": "k1", "val": sv}, "rule": dict(EMPTY), "det": dict(EMPTY), "field": dict(EMPTY)}
+        for v in vals:
+            for op in CMP:
+                for kind in ("rule", "det", "field"):
+                    out.append({"rule": BOUND_RULE, "items": [setter, marker_item(kind, {"t": "processing_state", "key": "k1", "val": v, "op": op})]})
+    attrs = {"level": ["low", "high", "critical", "High", "x"], "status": ["deprecated", "test", "stable", "TEST"],
+             "date": ["2020-02-28", "2020-02-29", "2020-03-01", "2019-12-31", "2020-02-30"], "mycustom": [4, 5, 6, "5", "6", "-5", "x"],
+             "other": ["7", 7, "8"], "title": ["Test", "Tes", 5], "fields": ["a", "zz", "b", 1], "tags": ["attack.t1059", "a.b", "a.b.c"],
+             "author": ["me", "you"], "nonexistent": ["x"]}
+    for a, vals in attrs.items():
+        for v in vals:
+            for op in AOP:
+                out.append({"rule": BOUND_RULE, "items": [marker_item("rule", {"t": "rule_attribute", "attribute": a, "value": v, "op": op})]})
+    return out
+
 def history_cases(rng, n):
     """pipelines that rename fields several times and then ask who was applied where"""
     out = []
@@ -476,9 +513,11 @@ def history_cases(rng, n):
 
 def gen_pipe(tier, rng):
     out = sweep()
-    nrand, nhist = (900, 250) if tier == "quick" else (14000, 4000)
+    bnd = boundary_cases()
+    nrand, nhist = (700, 200) if tier == "quick" else (14000, 4000)
     if tier == "quick":
-        out = rng.sample(out, 700)
+        out = rng.sample(out, 480)
+    out += bnd
     out += [gen_random_case(rng) for _ in range(nrand)]
     out += history_cases(rng, nhist)
     return out
